@@ -1,6 +1,7 @@
 package pure
 
 import (
+	"bytes"
 	"encoding/hex"
 	"fmt"
 	"reflect"
@@ -531,6 +532,23 @@ func TestC01(t *testing.T) {
 			cb, _ := common.RefEncodeCemi(f.Cemi)
 			for cut := 0; cut <= len(cb); cut++ {
 				try(decodePlan{Target: "cemi.Unpack", Hex: hex.EncodeToString(cb[:cut]), Origin: "enum-truncation-cemi", Remnant: rem})
+			}
+		}
+		// a length octet at its maximum with enough octets behind it that the announced length is *present*: cursors
+		// and sums narrower than the buffer wrap there (0xff, and the values around it, followed by 300 filler octets)
+		for _, lf := range lens {
+			if lf.Width != 1 || lf.Off < 6 {
+				continue
+			}
+			for _, v := range []int{0xff, 0xfe, 0x80} {
+				for _, fill := range []byte{0x00, 0x02, 0xff} {
+					b := append(append([]byte{}, full...), bytes.Repeat([]byte{fill}, 300)...)
+					setLen(b, lf, v)
+					if len(b) <= 1024 {
+						b[4], b[5] = byte(len(b)>>8), byte(len(b))
+						try(decodePlan{Target: "knxnet.Unpack", Hex: hex.EncodeToString(b), Origin: "enum-length-octet-max-with-filler"})
+					}
+				}
 			}
 		}
 		for i, lf := range lens {
